@@ -227,6 +227,9 @@ func streamPool(seed uint64, n int) (*Summary, error) {
 	root := rng.New(seed)
 	distinct := map[string]bool{}
 	for i := 0; i < n; i++ {
+		if i%100 == 99 {
+			runtime.GC() // the collector is off while a probe runs; collect between probes (every probe starts from cleared pools)
+		}
 		g := &eng.Gen{R: root.Fork(), NoPosts: i%3 == 0}
 		c := g.Case(i)
 		// reference: cleared pools. The visit order is random, so the comparison is on runs with equal orders.
@@ -304,6 +307,9 @@ func streamPool(seed uint64, n int) (*Summary, error) {
 	}
 	// ---- decode-failure calls: issues that come from a data-provider factory ----
 	for i := 0; i < n; i++ {
+		if i%100 == 99 {
+			runtime.GC()
+		}
 		r := root.Fork()
 		probe := genDecodeCall(r)
 		p.ClearPools()
